@@ -201,10 +201,13 @@ fn same_value(left: &ast::Value, right: &ast::Value) -> bool {
         (ast::Value::Float(left), ast::Value::Float(right)) => left == right,
         (ast::Value::Int(left), ast::Value::Int(right)) => left == right,
         (ast::Value::Boolean(left), ast::Value::Boolean(right)) => left == right,
-        (ast::Value::List(left), ast::Value::List(right)) => left
-            .iter()
-            .zip(right.iter())
-            .all(|(left, right)| same_value(left, right)),
+        (ast::Value::List(left), ast::Value::List(right)) => {
+            left.len() == right.len()
+                && left
+                    .iter()
+                    .zip(right.iter())
+                    .all(|(left, right)| same_value(left, right))
+        }
         (ast::Value::Object(left), ast::Value::Object(right)) if left.len() == right.len() => {
             // This check could miss out on keys that exist in `right`, but not in `left`, if `left` contains duplicate keys.
             // We assume that that doesn't happen. GraphQL does not support duplicate keys and
